@@ -101,10 +101,20 @@ def attribute(findings, facet: str, summary: str, case: dict):
 # worker
 # ---------------------------------------------------------------------------------------------
 def _worker_main(wid, pid, tier, seed, task_q, res_q, journal_dir, boundscheck):
+    cov = None
     try:
         env.setup_env(boundscheck=boundscheck)
         import io
 
+        if os.environ.get("VERIF_COVERAGE"):
+            # line coverage of the Python-level library code reached by the exploration (a survey
+            # tool for finding branches no sub-space reaches; never part of a verdict)
+            import coverage
+
+            os.environ.setdefault("COVERAGE_CORE", "sysmon")
+            cov = coverage.Coverage(data_file=os.path.join(os.environ["VERIF_COVERAGE"], f".cov.{pid}.{wid}.{os.getpid()}"),
+                                    source=[str(env.REPO / "groupby_lib")], branch=False)
+            cov.start()
         sys.stdout = io.StringIO()  # library prints are swallowed
         env.bind()
         prop = load_prop(pid)
@@ -164,6 +174,9 @@ def _worker_main(wid, pid, tier, seed, task_q, res_q, journal_dir, boundscheck):
                     if out["sigs"][sig] <= 2 and len(out["unattributed"]) < 40:
                         out["unattributed"].append((i, facet, summary, case))
         res_q.put(("done", wid, out))
+    if cov is not None:
+        cov.stop()
+        cov.save()
     res_q.put(("bye", wid))
 
 
